@@ -338,7 +338,8 @@ class Gridder(GeospatialGrid):
 
         total_segment_length = first_segment_length + second_segment_length
         if total_segment_length == 0:
-            # repeated point on the antimeridian: the whole value stays in the first part
+            # repeated point on the antimeridian: the whole value stays in the
+            # first part
             first_segment_length, total_segment_length = 1.0, 1.0
         return first_segment_length, second_segment_length, total_segment_length
 
